@@ -1,5 +1,24 @@
 /-
   DDS.Props.Lift — the headline guarantees for EVERY store kind.
+
+  `DDS.Proofs.Lift` gives one invariant (`Lift.Good`) for the five store kinds and shows that
+  every operation of the store interface — all 5 × 5 kind pairs of `MergeWith` included — is the
+  SPEC step on the canonical content.  Here the sketch-level theorems, proved on spec (sparse)
+  stores in C01 / C02 / C12, are transported:
+
+  * `quantile_accuracy_any_store`, `addAll_ok_any_store`, `quantile_eq_spec` — the statement of
+    `C01.quantile_accuracy` on dense, sparse and buffered-paginated stores;
+  * `merge_tree_any_stores` — `C02.merge_tree` with a store kind per leaf (any mix of
+    non-collapsing kinds): the result observes like the flat spec sketch;
+  * `collapsing_sketch_contents` — sketches on lowest- or highest-collapsing stores hold
+    `specLow N` / `specHigh N` of the exact contents;
+  * `collapsing_quantile_retained` — on lowest-collapsing stores every quantile whose selected
+    bin is at or above the edge `max − N + 1` of its side is answered exactly as by the
+    un-collapsed spec sketch (`Lift.keyAtRank_specLow`: below the edge the edge bin answers).
+
+  The only hypothesis added to C01/C02: the indexes of the values routed to a store are int32
+  (outside int32 the dense stores mis-report `MinIndex`/`MaxIndex` or panic; see
+  `DStore.minIndex_counterexample`, `DStore.addWithCount_far_panics`).
 -/
 import DDS.Proofs.Lift
 import DDS.Props.C01
@@ -36,10 +55,10 @@ def Plain : StoreKind → Prop
 
 theorem goodSk_new (m : Option MapId) (k : StoreKind) (hk : Plain k) :
     GoodSk (Sketch.new m k) ∧ specOf (Sketch.new m k) = Sketch.new m .sparse := by
-  have hok : KindOK k := by cases k <;> first | trivial | exact hk.elim
+  have hok : KindOK k := by cases k <;> trivial
   obtain ⟨g, c, _⟩ := good_new k hok
   have hcl : (Store.new k).clamp = .none := by
-    rw [clamp_new]; cases k <;> first | rfl | exact hk.elim
+    rw [clamp_new]; cases k <;> first | rfl | exact False.elim hk
   refine ⟨⟨g, g, hcl, hcl⟩, ?_⟩
   show Sketch.spec m (contentOf (Store.new k)) (contentOf (Store.new k)) (.fin 0) = _
   rw [c]; rfl
@@ -214,6 +233,346 @@ theorem ktree_lift (env : MapEnv) (t : KTree) (hk : t.AllPlain)
             refine ⟨s', ?_, G', by rw [e', h]⟩
             simp only [KTree.eval, ea, eb, k1]
 
+/-! ## sketches on collapsing stores: contents = clamped exact contents -/
+
+/-- admissible clamping rules: a collapsing store has at least one bin -/
+def ClampOK : Clamp → Prop
+  | .none => True
+  | .low n => 1 ≤ n
+  | .high n => 1 ≤ n
+
+theorem wf_clamp (cl : Clamp) (E : Content) (h : E.WF) : (cl.apply E).WF := by
+  cases cl with
+  | none => exact h
+  | low n => exact Content.wf_specLow n E h
+  | high n => exact Content.wf_specHigh n E h
+
+/-- "clamp at every step" = "clamp once" -/
+theorem clamp_add_clamp (cl : Clamp) (hcl : ClampOK cl) (E : Content) (hE : E.WF) (i : Int)
+    (w : Rat) (hw : 0 ≤ w) : cl.apply ((cl.apply E).add i w) = cl.apply (E.add i w) := by
+  cases cl with
+  | none => rfl
+  | low n => exact DStore.specLow_add_specLow n hcl E hE i w hw
+  | high n => exact DStore.specHigh_add_specHigh n hcl E hE i w hw
+
+/-- the sketch `s` (stores with clamping rule `cl`) holds the clamped contents of the exact
+    (un-collapsed) spec sketch `t` -/
+structure SimC (cl : Clamp) (s t : Sketch) : Prop where
+  pos : Good s.pos
+  neg : Good s.neg
+  cpos : s.pos.clamp = cl
+  cneg : s.neg.clamp = cl
+  spec : ∃ cp cn, cp.WF ∧ cn.WF ∧ t = Sketch.spec s.mapping cp cn s.zero ∧
+    contentOf s.pos = cl.apply cp ∧ contentOf s.neg = cl.apply cn
+
+theorem simC_new (m : Option MapId) (k : StoreKind) (hk : KindOK k) :
+    SimC (clampOfKind k) (Sketch.new m k) (Sketch.new m .sparse) := by
+  obtain ⟨g, c, _⟩ := good_new k hk
+  refine ⟨g, g, clamp_new k, clamp_new k, [], [], Content.wf_nil, Content.wf_nil, rfl, ?_, ?_⟩
+  · show contentOf (Store.new k) = _
+    rw [c]; cases k <;> rfl
+  · show contentOf (Store.new k) = _
+    rw [c]; cases k <;> rfl
+
+theorem addV_liftC (env : MapEnv) (cl : Clamp) (hcl : ClampOK cl) (s t : Sketch)
+    (S : SimC cl s t) (v c : Rat)
+    (hidx : (F64.gt (.fin v) env.minIndexable = true ∨
+        F64.lt (.fin v) (F64.neg env.minIndexable) = true) → I32 (env.index (.fin (rabs v))))
+    (t' : Sketch) (h : t.addV env v c = some (.ok t')) :
+    ∃ s', s.addV env v c = some (.ok s') ∧ SimC cl s' t' := by
+  obtain ⟨Gp, Gn, kp, kn, cp, cn, wp, wn, rfl, ep, en⟩ := S
+  unfold Sketch.addV Sketch.addWithCount at h ⊢
+  by_cases hc : F64.lt (.fin c) (.fin 0) = true
+  · rw [if_pos hc] at h; cases h
+  · rw [if_neg hc] at h ⊢
+    have hc0 : 0 ≤ c := by
+      have : ¬ c < 0 := by simpa [F64.lt] using hc
+      exact not_lt.1 this
+    by_cases h1 : F64.gt (.fin v) env.minIndexable = true
+    · rw [if_pos h1] at h ⊢
+      by_cases h2 : F64.gt (.fin v) env.maxIndexable = true
+      · rw [if_pos h2] at h; cases h
+      · rw [if_neg h2] at h ⊢
+        obtain ⟨p', hp1, hp2, hp3, hp4⟩ := good_add s.pos Gp _ (hidx (Or.inl h1)) c hc0
+        rw [kp, ep, clamp_add_clamp cl hcl cp wp _ c hc0] at hp4
+        simp only [Sketch.ratOf?, Option.bind_eq_bind, Option.bind_some, hp1, Option.pure_def]
+        simp only [Sketch.ratOf?, Option.bind_eq_bind, Option.bind_some, Option.pure_def,
+          Sketch.spec, Store.addWithCount, Option.some.injEq, Except.ok.injEq] at h
+        refine ⟨_, rfl, ⟨hp2, Gn, by rw [clamp_of_kind hp3]; exact kp, kn,
+          cp.add (env.index (.fin (rabs v))) c, cn, Content.wf_add _ _ _ wp hc0, wn, ?_, hp4, en⟩⟩
+        rw [← h]; rfl
+    · rw [if_neg h1] at h ⊢
+      by_cases h3 : F64.lt (.fin v) (F64.neg env.minIndexable) = true
+      · rw [if_pos h3] at h ⊢
+        by_cases h4 : F64.lt (.fin v) (F64.neg env.maxIndexable) = true
+        · rw [if_pos h4] at h; cases h
+        · rw [if_neg h4] at h ⊢
+          obtain ⟨n', hn1, hn2, hn3, hn4⟩ := good_add s.neg Gn _ (hidx (Or.inr h3)) c hc0
+          rw [kn, en, clamp_add_clamp cl hcl cn wn _ c hc0] at hn4
+          simp only [Sketch.ratOf?, Option.bind_eq_bind, Option.bind_some, hn1, Option.pure_def]
+          simp only [Sketch.ratOf?, Option.bind_eq_bind, Option.bind_some, Option.pure_def,
+            Sketch.spec, Store.addWithCount, Option.some.injEq, Except.ok.injEq] at h
+          refine ⟨_, rfl, ⟨Gp, hn2, kp, by rw [clamp_of_kind hn3]; exact kn,
+            cp, cn.add (env.index (.fin (rabs v))) c, wp, Content.wf_add _ _ _ wn hc0, ?_, ep, hn4⟩⟩
+          rw [← h]; rfl
+      · rw [if_neg h3] at h ⊢
+        have hnan : F64.isNaN (.fin v) = false := rfl
+        simp only [hnan, Bool.false_eq_true, if_false, Sketch.ratOf?, Option.bind_eq_bind,
+          Option.bind_some, Option.pure_def, Option.some.injEq, Except.ok.injEq] at h ⊢
+        refine ⟨_, rfl, ⟨Gp, Gn, kp, kn, cp, cn, wp, wn, ?_, ep, en⟩⟩
+        rw [← h]; rfl
+
+theorem addAll_liftC (env : MapEnv) (cl : Clamp) (hcl : ClampOK cl) (l : List (Rat × Rat))
+    (hidx : ∀ p ∈ l, (F64.gt (.fin p.1) env.minIndexable = true ∨
+        F64.lt (.fin p.1) (F64.neg env.minIndexable) = true) → I32 (env.index (.fin (rabs p.1))))
+    (s t : Sketch) (S : SimC cl s t) (t' : Sketch) (h : t.addAll env l = some t') :
+    ∃ s', s.addAll env l = some s' ∧ SimC cl s' t' := by
+  induction l generalizing s t with
+  | nil =>
+    simp only [Sketch.addAll, Option.some.injEq] at h
+    exact ⟨s, rfl, h ▸ S⟩
+  | cons p l ih =>
+    obtain ⟨v, c⟩ := p
+    simp only [Sketch.addAll] at h ⊢
+    cases h1 : t.addV env v c with
+    | none => rw [h1] at h; cases h
+    | some r =>
+      cases r with
+      | error e => rw [h1] at h; cases h
+      | ok t1 =>
+        rw [h1] at h
+        obtain ⟨s1, k1, S1⟩ := addV_liftC env cl hcl s t S v c (hidx (v, c) (by simp)) t1 h1
+        rw [k1]
+        simp only
+        exact ih (fun q hq => hidx q (by simp [hq])) s1 t1 S1 h
+
+/-! ## rank lookups survive the collapsing above the edge -/
+
+theorem cumul_foldLow (m : Content) (e k : Int) :
+    (Content.foldLow m e).cumul k = if k < e then 0 else m.cumul k := by
+  unfold Content.foldLow
+  rw [Content.cumul_eq_wsum, Content.wsum_relabel]
+  by_cases hk : k < e
+  · rw [if_pos hk, ← Content.wsum_false m]
+    apply Content.wsum_congr
+    intro i
+    simp only [decide_eq_false_iff_not]
+    split <;> omega
+  · rw [if_neg hk, Content.cumul_eq_wsum]
+    apply Content.wsum_congr
+    intro i
+    by_cases hi : i < e
+    · simp only [if_pos hi]
+      rw [decide_eq_true (by omega), decide_eq_true (by omega)]
+    · simp only [if_neg hi]
+
+/-- `KeyAtRank` on the content folded at `e` answers the un-folded key, moved onto the edge when
+    it lies below it -/
+theorem keyAtRank_foldLow (m : Content) (h : m.WF) (e mx : Int) (he : e ≤ mx)
+    (hmx : m.maxIndex? = some mx) (r : Rat) :
+    (Content.foldLow m e).keyAtRank r = max (m.keyAtRank r) e := by
+  have hne : m ≠ [] := fun hc => by rw [hc] at hmx; cases hmx
+  have hwf' := Content.wf_foldLow m h e
+  obtain ⟨hmx', hkeys'⟩ := Content.foldLow_keys m h e mx he hmx
+  have hne' : Content.foldLow m e ≠ [] := fun hc => by rw [hc] at hmx'; cases hmx'
+  have htot : (Content.foldLow m e).total = m.total := Content.total_relabel _ m
+  have A := Content.keyAtRank_spec m h hne r
+  have B := Content.keyAtRank_spec _ hwf' hne' r
+  obtain ⟨wk, hwk⟩ := Content.keyAtRank_mem m r hne
+  obtain ⟨wk', hwk'⟩ := Content.keyAtRank_mem _ r hne'
+  simp only at A B
+  generalize m.keyAtRank r = k at A hwk ⊢
+  generalize (Content.foldLow m e).keyAtRank r = k' at B hwk' ⊢
+  have hr' : (0 : Rat) ≤ (if r < 0 then 0 else r) := by split_ifs <;> linarith
+  generalize (if r < 0 then 0 else r) = r' at A B hr'
+  have hk'e : e ≤ k' := (hkeys' _ hwk').1
+  have hcum' : ∀ j, e ≤ j → (Content.foldLow m e).cumul j = m.cumul j := fun j hj => by
+    rw [cumul_foldLow, if_neg (by omega)]
+  have hle := Content.cumul_le_total m h.2
+  have hle' := Content.cumul_le_total _ hwf'.2
+  have hnn := Content.cumul_nonneg m h.2
+  -- a key of the folded content at or above the edge
+  have key' : ∀ j, e ≤ j → 0 < (if j = e then m.cumul e else m.lookup j) →
+      ∃ w, (j, w) ∈ Content.foldLow m e := by
+    intro j hj hpos
+    rw [← Content.lookup_pos_iff _ hwf', Content.lookup_foldLow]
+    unfold DStore.foldW
+    rw [if_neg (by omega)]; exact hpos
+  rcases A with ⟨a1, a2⟩ | ⟨a1, a2⟩
+  · rcases B with ⟨b1, b2⟩ | ⟨b1, b2⟩
+    · rw [hcum' k' hk'e] at b1
+      by_cases hke : e ≤ k
+      · -- the un-folded answer is at or above the edge: it is kept
+        rw [max_eq_left hke]
+        have hkkey : ∃ w, (k, w) ∈ Content.foldLow m e := by
+          apply key' k hke
+          have hpos : 0 < m.lookup k := (Content.lookup_pos_iff m h k).2 ⟨wk, hwk⟩
+          by_cases hk : k = e
+          · rw [if_pos hk, ← hk]
+            have := Content.cumul_step m k
+            have := hnn (k - 1)
+            linarith
+          · rw [if_neg hk]; exact hpos
+        rcases lt_trichotomy k' k with hlt | heq | hgt
+        · exfalso
+          by_cases hk'e' : k' = e
+          · -- `k' = e < k`: the largest key of `m` at or below `e` already exceeds the rank
+            rcases DDS.cumul_eq_zero_or_key m h.1 e with h0 | ⟨p, hp, hpl, hpe⟩
+            · rw [hk'e', h0] at b1; linarith
+            · have := a2 p hp (by omega)
+              rw [hk'e', hpe] at b1; linarith
+          · have hpos : 0 < m.lookup k' := by
+              have := (Content.lookup_pos_iff _ hwf' k').2 ⟨wk', hwk'⟩
+              rw [Content.lookup_foldLow] at this
+              unfold DStore.foldW at this
+              rw [if_neg (by omega), if_neg hk'e'] at this
+              exact this
+            obtain ⟨w, hw⟩ := (Content.lookup_pos_iff m h k').1 hpos
+            have := a2 _ hw hlt
+            simp only at this
+            linarith
+        · exact heq
+        · exfalso
+          obtain ⟨w, hw⟩ := hkkey
+          have := b2 _ hw hgt
+          simp only at this
+          rw [hcum' k hke] at this
+          linarith
+      · -- the un-folded answer lies below the edge: the edge answers
+        have hke' : k < e := not_le.1 hke
+        rw [max_eq_right (le_of_lt hke')]
+        have hce : r' < m.cumul e := lt_of_lt_of_le a1 (Content.cumul_mono m h.2 k e (le_of_lt hke'))
+        rcases lt_or_eq_of_le hk'e with hlt | heq
+        · exfalso
+          obtain ⟨w, hw⟩ := key' e (le_refl _) (by rw [if_pos rfl]; linarith)
+          have := b2 _ hw hlt
+          simp only at this
+          rw [hcum' e (le_refl _)] at this
+          linarith
+        · exact heq.symm
+    · exfalso
+      have := hle k
+      rw [htot] at b1; linarith
+  · rcases B with ⟨b1, b2⟩ | ⟨b1, b2⟩
+    · exfalso
+      have := hle' k'
+      rw [htot] at this; linarith
+    · rw [hmx] at a2
+      rw [hmx'] at b2
+      have e1 : k = mx := (Option.some.inj a2).symm
+      have e2 : k' = mx := (Option.some.inj b2).symm
+      rw [e1, e2, max_eq_left he]
+
+theorem keyAtRank_specLow (N : Nat) (hN : 1 ≤ N) (m : Content) (h : m.WF) (mx : Int)
+    (hmx : m.maxIndex? = some mx) (r : Rat) :
+    (Content.specLow N m).keyAtRank r = max (m.keyAtRank r) (mx - (N : Int) + 1) := by
+  rw [Content.specLow_of_max N m mx hmx]
+  exact keyAtRank_foldLow m h _ mx (by omega) hmx r
+
+/-- the float-rank lookup of the sparse store on the collapsed content -/
+theorem storeKeyAtRank_specLow (N : Nat) (hN : 1 ≤ N) (c : Content) (h : c.WF) (mx : Int)
+    (hmx : c.maxIndex? = some mx) (rk : F64) :
+    Sketch.storeKeyAtRank (.sp (Content.specLow N c)) rk =
+      max (Sketch.storeKeyAtRank (.sp c) rk) (mx - (N : Int) + 1) := by
+  have hwf' := Content.wf_specLow N c h
+  have hmx' := (Content.specLow_keys N hN c h mx hmx).1
+  cases rk with
+  | fin r =>
+    show (Store.sp _).keyAtRank r = max ((Store.sp c).keyAtRank r) _
+    rw [Store.sp_keyAtRank _ hwf', Store.sp_keyAtRank _ h, keyAtRank_specLow N hN c h mx hmx]
+  | ninf =>
+    show (Store.sp _).keyAtRank 0 = max ((Store.sp c).keyAtRank 0) _
+    rw [Store.sp_keyAtRank _ hwf', Store.sp_keyAtRank _ h, keyAtRank_specLow N hN c h mx hmx]
+  | pinf =>
+    show ((Content.specLow N c).maxIndex?).getD 0 = max ((c.maxIndex?).getD 0) _
+    rw [hmx', hmx]; simp only [Option.getD_some]; omega
+  | nan =>
+    show ((Content.specLow N c).maxIndex?).getD 0 = max ((c.maxIndex?).getD 0) _
+    rw [hmx', hmx]; simp only [Option.getD_some]; omega
+
+/-- which bin `GetValueAtQuantile(q)` selects: `none` (refused, or the zero bucket) or the side
+    (`true` = positive store) and the bin index -/
+def selKey (s : Sketch) (q : F64) : Option (Bool × Int) :=
+  if !(F64.le (.fin 0) q && F64.le q (.fin 1)) then none
+  else if F64.eq s.getCount (.fin 0) then none
+  else if F64.lt (s.qrank q) s.negTotal then
+    some (false, Sketch.storeKeyAtRank s.neg (F64.sub (F64.sub s.negTotal F64.one) (s.qrank q)))
+  else if F64.lt (s.qrank q) (F64.add s.zero s.negTotal) then none
+  else some (true, Sketch.storeKeyAtRank s.pos (F64.sub (F64.sub (s.qrank q) s.zero) s.negTotal))
+
+/-- the lower edge of a lowest-collapsing store with `N` bins holding the exact content `c`:
+    `max − N + 1` (anything for the empty content) -/
+def edgeLow (N : Nat) (c : Content) : Int :=
+  match c.maxIndex? with
+  | some mx => mx - (N : Int) + 1
+  | none => 0
+
+/-- spec level: collapsing both contents with limit `N` does not change the answer of
+    `GetValueAtQuantile(q)` when the bin the exact sketch selects is at or above the edge
+    `max − N + 1` of its side (and never changes refusals or zero-bucket answers) -/
+theorem quantile_specLow_retained (env : MapEnv) (N : Nat) (hN : 1 ≤ N) (m : Option MapId)
+    (cp cn : Content) (hcp : cp.WF) (hcn : cn.WF) (z : F64) (q : F64)
+    (hsel : ∀ side k, selKey (Sketch.spec m cp cn z) q = some (side, k) →
+      edgeLow N (if side then cp else cn) ≤ k) :
+    (Sketch.spec m (Content.specLow N cp) (Content.specLow N cn) z).quantile env q =
+      (Sketch.spec m cp cn z).quantile env q := by
+  have hcount : (Sketch.spec m (Content.specLow N cp) (Content.specLow N cn) z).getCount =
+      (Sketch.spec m cp cn z).getCount := by
+    simp only [Sketch.getCount, Sketch.posTotal, Sketch.negTotal, Sketch.spec, Store.totalCount,
+      Content.total_specLow]
+  have hneg : (Sketch.spec m (Content.specLow N cp) (Content.specLow N cn) z).negTotal =
+      (Sketch.spec m cp cn z).negTotal := by
+    simp only [Sketch.negTotal, Sketch.spec, Store.totalCount, Content.total_specLow]
+  have hrank : (Sketch.spec m (Content.specLow N cp) (Content.specLow N cn) z).qrank q =
+      (Sketch.spec m cp cn z).qrank q := by
+    simp only [Sketch.qrank, hcount]
+  have hzero : (Sketch.spec m (Content.specLow N cp) (Content.specLow N cn) z).zero =
+      (Sketch.spec m cp cn z).zero := rfl
+  -- the key lemma, with the edge condition
+  have keyEq : ∀ (c : Content), c.WF → ∀ rk k, Sketch.storeKeyAtRank (.sp c) rk = k →
+      edgeLow N c ≤ k →
+      Sketch.storeKeyAtRank (.sp (Content.specLow N c)) rk = k := by
+    intro c hc rk k hk hedge
+    cases hmx : c.maxIndex? with
+    | none =>
+      have : c = [] := Content.maxIndex?_eq_none.1 hmx
+      subst this
+      exact hk
+    | some mx =>
+      rw [storeKeyAtRank_specLow N hN c hc mx hmx, hk]
+      unfold edgeLow at hedge
+      rw [hmx] at hedge
+      exact max_eq_left hedge
+  rw [Sketch.quantile_unfold, Sketch.quantile_unfold, hcount, hneg, hrank, hzero]
+  unfold selKey at hsel
+  by_cases h1 : (!(F64.le (.fin 0) q && F64.le q (.fin 1))) = true
+  · rw [if_pos h1, if_pos h1]
+  · rw [if_neg h1, if_neg h1]
+    rw [if_neg h1] at hsel
+    by_cases h2 : F64.eq (Sketch.spec m cp cn z).getCount (.fin 0) = true
+    · rw [if_pos h2, if_pos h2]
+    · rw [if_neg h2, if_neg h2]
+      rw [if_neg h2] at hsel
+      by_cases h3 : F64.lt ((Sketch.spec m cp cn z).qrank q) (Sketch.spec m cp cn z).negTotal = true
+      · rw [if_pos h3, if_pos h3]
+        rw [if_pos h3] at hsel
+        have := hsel false _ rfl
+        have e := keyEq cn hcn (F64.sub (F64.sub (Sketch.spec m cp cn z).negTotal F64.one)
+          ((Sketch.spec m cp cn z).qrank q)) _ rfl (by simpa using this)
+        exact congrArg (fun k => Except.ok (F64.neg (env.value k))) e
+      · rw [if_neg h3, if_neg h3]
+        rw [if_neg h3] at hsel
+        by_cases h4 : F64.lt ((Sketch.spec m cp cn z).qrank q)
+            (F64.add (Sketch.spec m cp cn z).zero (Sketch.spec m cp cn z).negTotal) = true
+        · rw [if_pos h4, if_pos h4]
+        · rw [if_neg h4, if_neg h4]
+          rw [if_neg h4] at hsel
+          have := hsel true _ rfl
+          have e := keyEq cp hcp (F64.sub (F64.sub ((Sketch.spec m cp cn z).qrank q)
+            (Sketch.spec m cp cn z).zero) (Sketch.spec m cp cn z).negTotal) _ rfl
+            (by simpa using this)
+          exact congrArg (fun k => Except.ok (env.value k)) e
+
 end DDS.Lift
 
 namespace DDS.Props.Lift
@@ -242,6 +601,14 @@ theorem routed_iff' (env : MapEnv) (mn : Rat) (hmn : env.minIndexable = .fin mn)
     rw [rabs_of_pos (by linarith)]; exact this
   · have : v < -mn := by simpa [F64.lt, F64.neg] using h
     rw [rabs_of_neg (by linarith)]; linarith
+
+/-- the mapping of the spec sketch built by unit adds (no bound on the number of values) -/
+theorem addAll_state_mapping (env : MapEnv) (α mn mx : Rat) (C : Contract env α mn mx)
+    (xs : List Rat) (hx : ∀ x ∈ xs, rabs x ≤ mx) (s₀ : Sketch)
+    (hs : Sketch.addAll env (Sketch.new (some env.id) .sparse) (xs.map (fun x => (x, 1))) = some s₀) :
+    s₀.mapping = some env.id := by
+  rw [DDS.new_sparse, addAll_units env α mn mx C xs hx] at hs
+  rw [← Option.some.inj hs]
 
 /-- the sketch built by unit adds on stores of a non-collapsing kind is `GoodSk` and holds the
     contents of the spec sketch built from the same values -/
@@ -388,5 +755,189 @@ theorem merge_tree_any_stores (env : MapEnv) (mn mx : Rat)
   · intro q hq
     rw [hsp] at hq ⊢
     exact Sketch.quantile_congr' env R q (fun hc => by rw [Sketch.usesPos_congr R q]; exact hq hc)
+
+/-! ## sketches on collapsing stores -/
+
+theorem clampOK_of_kindOK (k : StoreKind) (hk : KindOK k) : ClampOK (clampOfKind k) := by
+  cases k <;> trivial
+
+/-- **Contents of a sketch on collapsing (or any) stores.**  After unit adds, a sketch on stores
+    of kind `k` — lowest-collapsing `.low N`, highest-collapsing `.high N`, or a non-collapsing
+    kind — never panicked, and its two stores hold (and observe like) the clamped contents
+    `specLow N` / `specHigh N` of the EXACT contents `cp`, `cn` of the spec sketch built from the
+    same values; zero bucket and mapping are those of the spec sketch. -/
+theorem collapsing_sketch_contents (k : StoreKind) (hk : KindOK k)
+    (env : MapEnv) (α mn mx : Rat) (C : Contract env α mn mx)
+    (xs : List Rat) (hx : ∀ x ∈ xs, rabs x ≤ mx)
+    (hx32 : ∀ x ∈ xs, mn < rabs x → I32 (env.index (.fin (rabs x)))) :
+    ∃ s s₀ cp cn,
+      Sketch.addAll env (Sketch.new (some env.id) k) (xs.map (fun x => (x, 1))) = some s ∧
+      Sketch.addAll env (Sketch.new (some env.id) .sparse) (xs.map (fun x => (x, 1))) = some s₀ ∧
+      s₀ = Sketch.spec (some env.id) cp cn s.zero ∧ s.mapping = some env.id ∧ cp.WF ∧ cn.WF ∧
+      Good s.pos ∧ Good s.neg ∧
+      contentOf s.pos = (clampOfKind k).apply cp ∧ contentOf s.neg = (clampOfKind k).apply cn ∧
+      s.Refines ((clampOfKind k).apply cp) ((clampOfKind k).apply cn) := by
+  obtain ⟨s₀, hs₀⟩ := C01.addAll_ok env α mn mx C xs hx
+  obtain ⟨s, h1, S⟩ := addAll_liftC env (clampOfKind k) (clampOK_of_kindOK k hk)
+    (xs.map (fun x => (x, 1))) (by
+      intro p hp hr
+      obtain ⟨x, hxm, rfl⟩ := List.mem_map.1 hp
+      exact hx32 x hxm (routed_iff env α mn mx C x hr)) _ _ (simC_new (some env.id) k hk) s₀ hs₀
+  obtain ⟨Gp, Gn, _, _, cp, cn, wp, wn, e, ep, en⟩ := S
+  have hmap : s.mapping = some env.id := by
+    have hst := addAll_state_mapping env α mn mx C xs hx s₀ hs₀
+    rw [e] at hst; exact hst
+  refine ⟨s, s₀, cp, cn, h1, hs₀, by rw [e, hmap], hmap, wp, wn, Gp, Gn, ep, en, ?_⟩
+  exact ⟨ep ▸ good_refines _ Gp, en ▸ good_refines _ Gn⟩
+
+/-- counts of at most `2^53` unit weights add up exactly, and `count - 1 ≠ count` -/
+theorem unit_counts_exact (zc np nm : Nat) (h1 : 1 ≤ zc + np + nm) (h2 : zc + np + nm ≤ 2 ^ 53) :
+    F64.add (F64.add (.fin (zc : Rat)) (.fin (np : Rat))) (.fin (nm : Rat)) =
+      .fin ((zc : Rat) + (np : Rat) + (nm : Rat)) ∧
+    F64.sub (.fin ((zc : Rat) + (np : Rat) + (nm : Rat))) F64.one ≠
+      .fin ((zc : Rat) + (np : Rat) + (nm : Rat)) := by
+  constructor
+  · rw [add_nat _ _ (by omega), add_nat _ _ (by omega)]
+    push_cast; rfl
+  · have e : ((zc : Rat) + (np : Rat) + (nm : Rat)) = (((zc + np + nm : Nat) : Int) : Rat) := by
+      push_cast; ring
+    rw [e]
+    show F64.roundF64 ((((zc + np + nm : Nat) : Int) : Rat) + -1) ≠ _
+    have e2 : (((zc + np + nm : Nat) : Int) : Rat) + -1 =
+        ((((zc + np + nm : Nat) : Int) - 1 : Int) : Rat) := by push_cast; ring
+    rw [e2, F64.roundF64_int' _ (by omega) (by omega)]
+    intro hc
+    have := F64.fin.inj hc
+    have : (((zc + np + nm : Nat) : Int) - 1 : Int) = ((zc + np + nm : Nat) : Int) := by
+      exact_mod_cast this
+    omega
+
+/-- **Quantiles above the edge survive the collapsing.**  A sketch on lowest-collapsing stores
+    with `N ≥ 1` bins, built by at most `2^53` unit adds, holds `specLow N` of the exact contents
+    (`collapsing_sketch_contents`); consequently `GetValueAtQuantile(q)` answers EXACTLY what the
+    un-collapsed spec sketch built from the same values answers, for every `q` whose selected bin
+    (`selKey`) is at or above the edge `max − N + 1` of its side — in particular strictly above
+    it — and for every `q` that is refused or falls in the zero bucket.  (Below the edge the
+    collapsed sketch answers the edge bin instead: `Lift.storeKeyAtRank_specLow`.) -/
+theorem collapsing_quantile_retained (N : Nat) (hN : 1 ≤ N)
+    (env : MapEnv) (α mn mx : Rat) (C : Contract env α mn mx)
+    (xs : List Rat) (hx : ∀ x ∈ xs, rabs x ≤ mx)
+    (hx32 : ∀ x ∈ xs, mn < rabs x → I32 (env.index (.fin (rabs x))))
+    (hne : xs ≠ []) (hn : xs.length ≤ 2 ^ 53) :
+    ∃ s s₀ cp cn,
+      Sketch.addAll env (Sketch.new (some env.id) (.low N)) (xs.map (fun x => (x, 1))) = some s ∧
+      Sketch.addAll env (Sketch.new (some env.id) .sparse) (xs.map (fun x => (x, 1))) = some s₀ ∧
+      s₀ = Sketch.spec (some env.id) cp cn s.zero ∧
+      contentOf s.pos = Content.specLow N cp ∧ contentOf s.neg = Content.specLow N cn ∧
+      ∀ q : F64,
+        (∀ side k, selKey s₀ q = some (side, k) → edgeLow N (if side then cp else cn) ≤ k) →
+        s.quantile env q = s₀.quantile env q := by
+  obtain ⟨s, s₀, cp, cn, h1, h2, h3, hmap, wp, wn, _, _, ep, en, R⟩ :=
+    collapsing_sketch_contents (.low N) hN env α mn mx C xs hx hx32
+  refine ⟨s, s₀, cp, cn, h1, h2, h3, ep, en, fun q hsel => ?_⟩
+  change s.Refines (Content.specLow N cp) (Content.specLow N cn) at R
+  have hst := addAll_state env α mn mx C xs hx hn s₀ h2
+  rw [h3] at hst
+  simp only [Sketch.spec, Sketch.mk.injEq, Store.sp.injEq, true_and] at hst
+  obtain ⟨hp, hng, hz⟩ := hst
+  have hlen := length_split mn C.minPos xs
+  have hPl : ((Psorted mn xs).map (idxOf env)).length = (posPart mn xs).length := by
+    rw [List.length_map]; exact (sortAsc_perm _).length_eq
+  have hMl : ((Msorted mn xs).map (idxOf env)).length = (negPart mn xs).length := by
+    rw [List.length_map, Msorted, (sortAsc_perm _).length_eq, List.length_map]
+  have hP : (Content.specLow N cp).total = ((posPart mn xs).length : Rat) := by
+    rw [Content.total_specLow, hp, total_unitsOf, hPl]
+  have hM : (Content.specLow N cn).total = ((negPart mn xs).length : Rat) := by
+    rw [Content.total_specLow, hng, total_unitsOf, hMl]
+  have hpos : 0 < xs.length := List.length_pos_iff.2 hne
+  obtain ⟨u1, u2⟩ := unit_counts_exact (zeroCnt mn xs) (posPart mn xs).length
+    (negPart mn xs).length (by omega) (by omega)
+  have hq := Props.C12.quantile_congr_exact env s _ _ (zeroCnt mn xs : Rat) R hz (by positivity)
+    (by rw [hP, hM]; exact u1) (by rw [hP, hM]; exact u2) q
+  rw [hq, hmap, h3]
+  exact quantile_specLow_retained env N hN (some env.id) cp cn wp wn s.zero q
+    (by rw [← h3]; exact hsel)
+
+/-! ## the hypotheses are satisfiable: concrete instances -/
+
+section examples
+open DDS.QuantileEx
+
+theorem exEnv_index32 (v : F64) : I32 (exEnv.index v) := by
+  cases v <;> simp only [exEnv] <;> first | (split <;> decide) | decide
+
+/-- `quantile_accuracy_any_store` / `addAll_ok_any_store` on dense and on paginated stores:
+    `exXs = [5, -2, 1, 3, -7, 0, 12]` (both sides and the zero bucket), every `q ∈ [0, 1]` -/
+example (k : StoreKind) (hk : k = .dense ∨ k = .pag) :
+    ∃ s, Sketch.addAll exEnv (Sketch.new (some exEnv.id) k) (exXs.map (fun x => (x, 1))) = some s ∧
+    ∀ q : Rat, 0 ≤ q → q ≤ 1 →
+      ∃ a : Rat, Sketch.quantile exEnv s (.fin q) = .ok (.fin a) ∧
+        ∃ k : Nat, k < exXs.length ∧
+          ((k : Int) = ⌊q * ((exXs.length : Rat) - 1)⌋ ∨ (k : Int) = ⌈q * ((exXs.length : Rat) - 1)⌉) ∧
+          rabs (a - (sortedInputs (4 / 3) exXs)[k]!) ≤ 1 / 2 * rabs ((sortedInputs (4 / 3) exXs)[k]!) := by
+  have hp : Plain k := by rcases hk with rfl | rfl <;> trivial
+  obtain ⟨s, hs⟩ := addAll_ok_any_store k hp exEnv _ _ _ exContract exXs exXs_ok
+    (fun x _ _ => exEnv_index32 _)
+  exact ⟨s, hs, fun q h0 h1 =>
+    quantile_accuracy_any_store k hp exEnv _ _ _ exContract exXs exXs_ok
+      (fun x _ _ => exEnv_index32 _) (by simp [exXs]) (by simp [exXs]) s hs q h0 h1⟩
+
+/-- the tree of `C02` with a dense, a paginated and a sparse leaf -/
+def demoKTree : KTree :=
+  .node (.leaf .dense [(5, 2), (0, 1)])
+    (.node (.leaf .pag [(-3, 1)]) (.leaf .sparse [(7, 3), (1 / 2000, 2), (5, 1)]))
+
+theorem demoKTree_flat : demoKTree.flat = C02.demoTree.flat := rfl
+
+theorem demo_index32 : ∀ p ∈ demoKTree.flat, (1 / 1000 : Rat) < rabs p.1 →
+    I32 (C02.demoEnv.index (.fin (rabs p.1))) := by
+  intro p hp _
+  simp only [demoKTree_flat, C02.demoTree, C02.MergeTree.flat, List.cons_append, List.nil_append,
+    List.mem_cons, List.not_mem_nil, or_false] at hp
+  rcases hp with rfl | rfl | rfl | rfl | rfl | rfl <;> decide +kernel
+
+/-- `merge_tree_any_stores`: dense ⊕ (paginated ⊕ sparse) observes like the flat spec sketch -/
+example : ∃ s s₀ cp cn, demoKTree.eval C02.demoEnv = some s ∧
+    Sketch.addAll C02.demoEnv (Sketch.new (some C02.demoEnv.id) .sparse) demoKTree.flat = some s₀ ∧
+    s₀ = Sketch.spec (some C02.demoEnv.id) cp cn s.zero ∧ s.Refines cp cn ∧
+    s.getCount = s₀.getCount ∧ s.forEachList C02.demoEnv = s₀.forEachList C02.demoEnv ∧
+    s.getMin C02.demoEnv = s₀.getMin C02.demoEnv ∧ s.getMax C02.demoEnv = s₀.getMax C02.demoEnv := by
+  obtain ⟨s, s₀, cp, cn, a1, a2, a3, _, a5, a6, _, a8, _, a10, a11, _⟩ :=
+    merge_tree_any_stores C02.demoEnv (1 / 1000) 1000 rfl rfl (by norm_num) C02.demo_refl demoKTree
+      ⟨trivial, trivial, trivial⟩ C02.demo_acc C02.demo_exact demo_index32
+  exact ⟨s, s₀, cp, cn, a1, a2, a3, a5, a6, a8, a10, a11⟩
+
+/-- `collapsing_sketch_contents` / `collapsing_quantile_retained`: `exXs` into lowest-collapsing
+    stores with ONE bin (on the positive side the bin 0 of the value 3 is folded into bin 1) -/
+example : ∃ s s₀ cp cn,
+    Sketch.addAll exEnv (Sketch.new (some exEnv.id) (.low 1)) (exXs.map (fun x => (x, 1))) = some s ∧
+    Sketch.addAll exEnv (Sketch.new (some exEnv.id) .sparse) (exXs.map (fun x => (x, 1))) = some s₀ ∧
+    s₀ = Sketch.spec (some exEnv.id) cp cn s.zero ∧
+    contentOf s.pos = Content.specLow 1 cp ∧ contentOf s.neg = Content.specLow 1 cn ∧
+    ∀ q : F64,
+      (∀ side k, selKey s₀ q = some (side, k) → edgeLow 1 (if side then cp else cn) ≤ k) →
+      s.quantile exEnv q = s₀.quantile exEnv q :=
+  collapsing_quantile_retained 1 (by omega) exEnv _ _ _ exContract exXs exXs_ok
+    (fun x _ _ => exEnv_index32 _) (by simp [exXs]) (by simp [exXs])
+
+example : ∃ s s₀ cp cn,
+    Sketch.addAll exEnv (Sketch.new (some exEnv.id) (.high 1)) (exXs.map (fun x => (x, 1))) = some s ∧
+    Sketch.addAll exEnv (Sketch.new (some exEnv.id) .sparse) (exXs.map (fun x => (x, 1))) = some s₀ ∧
+    s₀ = Sketch.spec (some exEnv.id) cp cn s.zero ∧
+    contentOf s.pos = Content.specHigh 1 cp ∧ contentOf s.neg = Content.specHigh 1 cn := by
+  obtain ⟨s, s₀, cp, cn, a1, a2, a3, _, _, _, _, _, a9, a10, _⟩ :=
+    collapsing_sketch_contents (.high 1) (by decide) exEnv _ _ _ exContract exXs exXs_ok
+      (fun x _ _ => exEnv_index32 _)
+  exact ⟨s, s₀, cp, cn, a1, a2, a3, a9, a10⟩
+
+/-- `keyAtRank_specLow`: three unit bins 1, 3, 5 collapsed to two bins (edge 4): rank 0 (exact
+    answer 1, below the edge) now answers the edge 4; rank 2 keeps its answer 5 -/
+example : (Content.specLow 2 [(1, 1), (3, 1), (5, 1)]).keyAtRank 0 = 4 ∧
+    (Content.specLow 2 [(1, 1), (3, 1), (5, 1)]).keyAtRank 2 = 5 := by
+  have wf : Content.WF [((1 : Int), (1 : Rat)), (3, 1), (5, 1)] := by simp [Content.wf_cons]
+  rw [keyAtRank_specLow 2 (by omega) _ wf 5 rfl, keyAtRank_specLow 2 (by omega) _ wf 5 rfl]
+  decide +kernel
+
+end examples
 
 end DDS.Props.Lift
